@@ -12,6 +12,23 @@ pub struct AsyncConnection {
     _receiver_task: tokio::task::JoinHandle<()>,
 }
 
+#[cfg(feature = "verif-hooks")]
+impl AsyncConnection {
+    /// Harness constructor: client messages are fed through `receiver` (an ordinary tokio
+    /// channel) instead of a blocking reader thread, so every wait is visible to a
+    /// controlled scheduler.
+    pub fn verif_from_parts(
+        connection: Connection,
+        receiver: mpsc::UnboundedReceiver<Message>,
+    ) -> Self {
+        Self {
+            connection: Arc::new(connection),
+            receiver,
+            _receiver_task: tokio::spawn(async {}),
+        }
+    }
+}
+
 impl AsyncConnection {
     /// Create async version from sync Connection
     pub fn from_sync(connection: Connection) -> Self {
